@@ -91,3 +91,108 @@ def check_edge_jacobians(seed, n_per):
             except Exception as ex:  # noqa
                 fails.append({'edge': name, 'vals': vals, 'why': 'raised %r' % (ex,)})
     return evals, fails
+
+
+# ------------------------------------------------------------------------------------------------
+# C02: measurement model against an independent numpy homogeneous-matrix implementation
+def rand_spd(rng, n, cond=1e3):
+    A = np.array([[rng.gauss(0, 1) for _ in range(n)] for _ in range(n)])
+    Q, _ = np.linalg.qr(A)
+    ev = np.array([10 ** rng.uniform(0, math.log10(cond)) for _ in range(n)])
+    M = Q @ np.diag(ev) @ Q.T
+    return (M + M.T) / 2
+
+
+def unit_vals(vals, kinds):
+    out = []
+    for v, k in zip(vals, kinds):
+        if v is not None and k == 'SE3':
+            v = list(v)
+            nn = math.sqrt(sum(x * x for x in v[3:]))
+            v[3:] = [x / nn for x in v[3:]]
+        out.append(v)
+    return out
+
+
+def measurement_model(seed, n_per):
+    from oracle_poses import hom
+    from graphslam.graph import Graph
+    rng = random.Random(seed)
+    fails, evals = [], 0
+    for name in edge_names():
+        kinds = kinds_of(name)
+        for i in range(n_per):
+            fl = 'typical' if rng.random() < 0.7 else 'adversarial'
+            vals = unit_vals(gen_case(rng, name, fl), kinds)
+            try:
+                e, _ = ce.build(name, vals)
+                evals += 1
+                err = np.asarray(e.calc_error(), dtype=np.float64)
+                sc = 1.0 + max(abs(x) for v in vals if v for x in v) ** 2
+                if name.startswith('odo'):
+                    k = kinds[0]
+                    M1, M2, Mz = (hom(k, np.asarray(p)) for p in (e.vertices[0].pose, e.vertices[1].pose, e.estimate))
+                    ME = np.linalg.inv(np.linalg.inv(M1) @ M2) @ Mz
+                    # rebuild the error pose from the returned compact error and compare matrices
+                    if k == 'SE3':
+                        # the compact form drops w; the error pose is (v, +-sqrt(1-|v|^2)) -- accept either sign
+                        w2 = 1.0 - float(err[3] ** 2 + err[4] ** 2 + err[5] ** 2)
+                        ok = any(np.allclose(hom(k, list(err) + [sg * math.sqrt(max(w2, 0.0))]), ME, rtol=0, atol=1e-7 * sc) for sg in (1.0, -1.0))
+                    else:
+                        ok = np.allclose(hom(k, list(err)), ME, rtol=0, atol=1e-8 * sc)
+                    if not ok:
+                        fails.append({'edge': name, 'vals': vals, 'law': 'odometry error is not compact((p1^-1 p2)^-1 z)', 'err': err.tolist()})
+                        continue
+                else:
+                    k0, k1 = kinds[0], kinds[1]
+                    MQ = hom(k0, np.asarray(e.vertices[0].pose)) @ hom(k0, np.asarray(e.offset))
+                    l = np.asarray(e.vertices[1].pose, dtype=np.float64)
+                    x = (np.linalg.inv(MQ) @ np.array(list(l) + [1.0]))[:-1]
+                    if not np.allclose(err, x - np.asarray(e.estimate), rtol=0, atol=1e-8 * sc):
+                        fails.append({'edge': name, 'vals': vals, 'law': 'landmark error is not (p (+) offset)^-1 . l - z', 'err': err.tolist()})
+                        continue
+                # chi2 = e^T Omega e with a non-diagonal SPD information; linear in Omega; non-negative
+                n = len(err)
+                Om = rand_spd(rng, n, cond=10 ** rng.uniform(0, 8))
+                e.information = Om
+                c = float(e.calc_chi2())
+                ref = float(err @ Om @ err)
+                if not abs(c - ref) <= 1e-9 * (abs(ref) + 1e-300) + 1e-300 or c < 0:
+                    fails.append({'edge': name, 'vals': vals, 'law': 'chi2 != e^T Omega e (or negative)', 'chi2': c, 'ref': ref})
+                    continue
+                e.information = 3.0 * Om
+                c3 = float(e.calc_chi2())
+                if not abs(c3 - 3 * c) <= 1e-9 * abs(3 * c) + 1e-300:
+                    fails.append({'edge': name, 'vals': vals, 'law': 'chi2 not linear in Omega', 'chi2': c, 'chi2_3': c3})
+                    continue
+                # a consistent measurement has zero error
+                if name.startswith('odo'):
+                    e.estimate = e.vertices[1].pose - e.vertices[0].pose
+                else:
+                    e.estimate = (e.vertices[0].pose + e.offset).inverse + e.vertices[1].pose
+                z0 = np.asarray(e.calc_error(), dtype=np.float64)
+                if not np.abs(z0).max() <= 1e-9 * sc:
+                    fails.append({'edge': name, 'vals': vals, 'law': 'consistent measurement has non-zero error', 'err': z0.tolist()})
+            except Exception as ex:  # noqa
+                fails.append({'edge': name, 'vals': vals, 'law': 'raised %r' % (ex,)})
+    # graph chi2 = sum of edge chi2
+    from graphslam.vertex import Vertex
+    from graphslam.edge.edge_odometry import EdgeOdometry
+    for i in range(max(2, n_per // 3)):
+        evals += 1
+        nv = rng.randint(2, 6)
+        vs = [Vertex(j, cp.make_pose('SE2', ce.gen_vals(rng, 'SE2', 'typical'))) for j in range(nv)]
+        es = []
+        for j in range(rng.randint(1, 8)):
+            a, b = rng.randrange(nv), rng.randrange(nv)
+            if a == b:
+                continue
+            es.append(EdgeOdometry([a, b], rand_spd(rng, 3), cp.make_pose('SE2', ce.gen_vals(rng, 'SE2', 'typical'))))
+        g = Graph(es, vs)
+        tot = g.calc_chi2()
+        ref = 0.0
+        for e in es:
+            ref = ref + e.calc_chi2()
+        if tot != ref:
+            fails.append({'edge': 'graph', 'law': 'graph chi2 is not the sum of the edge chi2 in list order', 'total': float(tot), 'sum': float(ref)})
+    return evals, fails
